@@ -502,6 +502,43 @@ func nilContainers(b *tbuf, t *Target, gt *getterTable) {
 				}
 				return ""
 			})
+			if pass == 0 {
+				check("merge-decode-into", func() string {
+					// bytes that carry exactly this member / element / key with a NON-EMPTY payload, decoded with Merge
+					// into the message holding the nil: the data must arrive (the reference allocates and merges)
+					full := vval.Empty(S, 0)
+					child := vval.Empty(S, f.Msg)
+					child.B = []byte{0x98, 0x3f, 0x07}
+					switch f.Shape {
+					case vschema.Repeated:
+						full.Kids[j] = vval.VList(true, []*vval.Val{child})
+					case vschema.Map:
+						full.Kids[j] = vval.VMap(true, []*vval.Val{vval.VEntry(clean.Kids[j].Kids[0].Kids[0], child)})
+					case vschema.Oneof:
+						full.Kids[j] = vval.VOne(child)
+					}
+					src, err := proto.MarshalOptions{Deterministic: true}.Marshal(t.B.ToMessage(0, full))
+					if err != nil {
+						return ""
+					}
+					mj2 := t.B.ToMessage(0, junk)
+					dyn2 := dynamicpb.NewMessage(t.Desc)
+					if proto.Unmarshal(cb, dyn2) != nil {
+						return ""
+					}
+					e1 := proto.UnmarshalOptions{Merge: true}.Unmarshal(src, mj2)
+					e2 := proto.UnmarshalOptions{Merge: true}.Unmarshal(src, dyn2)
+					if (e1 == nil) != (e2 == nil) {
+						return fmt.Sprintf("Merge-decode error %v, reference %v", e1, e2)
+					}
+					g, _ := proto.MarshalOptions{Deterministic: true}.Marshal(mj2)
+					w, _ := proto.MarshalOptions{Deterministic: true}.Marshal(dyn2)
+					if !bytes.Equal(g, w) {
+						return fmt.Sprintf("after Merge-decoding %x the message encodes as %x, the reference as %x (data stored into the nil place was dropped?)", src, g, w)
+					}
+					return ""
+				})
+			}
 			check("proto.Equal", func() string {
 				// a nil element is an invalid message: Equal(invalid, valid-empty) is false in the library itself
 				if !proto.Equal(mj, mj) {
